@@ -77,6 +77,7 @@ macro_rules! dispatch {
     ($id:expr, $f:ident ( $($arg:expr),* )) => {
         match $id {
             "C10" => $f::<crate::c10::C10>($($arg),*),
+            "C12" => $f::<crate::c12::C12>($($arg),*),
             other => {
                 eprintln!("unknown or unclaimed property id '{}'", other);
                 2
@@ -85,7 +86,7 @@ macro_rules! dispatch {
     };
 }
 
-pub const CLAIMED: &[&str] = &["C10"];
+pub const CLAIMED: &[&str] = &["C10", "C12"];
 
 // ------------------------------------------------------------------------------- worker
 
